@@ -239,8 +239,11 @@ R(e, C) ==
               IF B # {} THEN Res(B, {}, mon) ELSE Res(C, ReqTags(C, e), mon))
       [] e.ev = "rep" ->
            LET good == e.cls = <<"accept">> /\ (e.ep = "add" \/ \A s \in C : RegAccepted(s.st, e.t, e.slots, e.expiry))
+               \* a renewal the tower answered with something the client cannot accept: no delivery is owed until a
+               \* renewal succeeds ("once the subscription has been renewed")
+               m1 == IF e.ep = "reg" THEN [mon EXCEPT !.bad[e.t] = IF good THEN @ \ {"renew"} ELSE @ \cup {"renew"}] ELSE mon
            IN Res(UNION {UNION {ReplySet(s, e.t, e.seq, RepOf(e, k)) : k \in SetOf(e.cls)} : s \in C}, {},
-                  IF good THEN mon ELSE Touch(mon, {e.t}, e.ts))
+                  IF good THEN m1 ELSE Touch(m1, {e.t}, e.ts))
       [] e.ev = "env" ->
            Res({SetUp(s, e.t, e.up) : s \in C}, {},
                [Touch(mon, {e.t}, e.ts) EXCEPT !.downAt[e.t] = IF e.up THEN -1 ELSE e.ts])
